@@ -25,27 +25,28 @@ func mustDeref(t types.Type) types.Type {
 
 // Engine is shared (read-only) by all workers.
 type Engine struct {
-	Prog            *ssa.Program
-	Sizes           types.Sizes
-	KnownOpen       map[string]bool
-	MaxPicks        int
-	Unwind          int
-	MaxInstr        int64
-	SolverArgv      []string
-	SolverName      string
-	SolverTimeoutMs int
-	InitPkgs        map[string]bool // packages whose init runs normally
-	LenientPkgs     map[string]bool // packages whose var initialisers run leniently
-	VrtPath         string          // import path of the overlaid runtime package
-	LogDir          string
-	Trace           bool
-	Thorough        bool
-	SessionPaths    int // recycle solver/context after this many paths
-	Substitute      map[string]string // fn name -> replacement fn name (spec substitution, layering)
-	NativeImport    func(i *NativeCtx, name string, args []interface{}) (interface{}, bool)
-	substFns        map[*ssa.Function]*ssa.Function
-	modelFns        map[string]*ssa.Function
-	mu              sync.Mutex
+	Prog             *ssa.Program
+	Sizes            types.Sizes
+	KnownOpen        map[string]bool
+	MaxPicks         int
+	Unwind           int
+	MaxInstr         int64
+	SolverArgv       []string
+	SolverName       string
+	SolverTimeoutMs  int
+	SecondSolverArgv []string
+	InitPkgs         map[string]bool // packages whose init runs normally
+	LenientPkgs      map[string]bool // packages whose var initialisers run leniently
+	VrtPath          string          // import path of the overlaid runtime package
+	LogDir           string
+	Trace            bool
+	Thorough         bool
+	SessionPaths     int               // recycle solver/context after this many paths
+	Substitute       map[string]string // fn name -> replacement fn name (spec substitution, layering)
+	NativeImport     func(i *NativeCtx, name string, args []interface{}) (interface{}, bool)
+	substFns         map[*ssa.Function]*ssa.Function
+	modelFns         map[string]*ssa.Function
+	mu               sync.Mutex
 }
 
 func isEngineAbort(p interface{}) bool {
@@ -289,7 +290,9 @@ func callSSA(i *interpreter, caller *frame, callpos token.Pos, fn *ssa.Function,
 				return callSSA(i, caller, callpos, sub, args, nil)
 			}
 			if in := intrinsics[name]; in != nil {
-				return in(fr, args)
+				if v := in(fr, args); v != (notHandled{}) {
+					return v
+				}
 			}
 			if m := i.eng.modelFns[name]; m != nil && m != fn {
 				return callSSA(i, caller, callpos, m, args, nil)
@@ -392,6 +395,9 @@ func hasSymDeep(v value, depth int) bool {
 
 type poison struct{ why string }
 
+// notHandled is returned by an intrinsic that declines (the real body runs instead).
+type notHandled struct{}
+
 func runFrame(fr *frame) {
 	defer func() {
 		if fr.block == nil {
@@ -467,29 +473,30 @@ func visitLenient(fr *frame, instr ssa.Instruction) (k continuation) {
 // Exploration driver
 
 type ExploreOpts struct {
-	Workers   int
-	MaxPaths  int
-	Deadline  time.Time
-	OnPath    func(*PathResult)
+	Workers  int
+	MaxPaths int
+	Deadline time.Time
+	OnPath   func(*PathResult)
 }
 
 type Summary struct {
-	Harness     string
-	Paths       int
-	Outcomes    map[string]int
-	AssertsOK   map[string]int
-	AssertsSeen map[string]int
-	Findings    []Finding
-	Unknown     []string
-	Instrs      int64
-	Queries     int
-	Unsupported map[string]int
-	Incomplete  []string // reasons coverage is incomplete
-	Samples     []string
-	InternalAsm map[string]int
-	WallS       float64
-	PanicMsgs   map[string]int
-	Trivial     int
+	Harness       string
+	Paths         int
+	Outcomes      map[string]int
+	AssertsOK     map[string]int
+	AssertsSeen   map[string]int
+	Findings      []Finding
+	Unknown       []string
+	Instrs        int64
+	Queries       int
+	Unsupported   map[string]int
+	Incomplete    []string // reasons coverage is incomplete
+	Samples       []string
+	InternalAsm   map[string]int
+	WallS         float64
+	PanicMsgs     map[string]int
+	Trivial       int
+	SecondOpinion int
 }
 
 // Explore runs all paths of a harness.
@@ -543,6 +550,7 @@ func (e *Engine) Explore(fn *ssa.Function, workers []*Worker, opts ExploreOpts) 
 				}
 				sum.Instrs += res.Instrs
 				sum.Trivial += res.Trivial
+				sum.SecondOpinion += res.SecondOpinion
 				sum.Queries += res.Queries
 				switch res.Outcome {
 				case "unsupported":
